@@ -225,6 +225,13 @@ def repl_critical(c, r):
     return "ReplicaRead" in acts and warned and ("Reset" in acts or errs)
 
 
+def repl_fp(c, r):
+    st = r.get("step")
+    if isinstance(st, int) and stale_window(c["steps"], st):
+        return "C45:repl:stale-destination:" + str(r.get("fp"))
+    return "C45:repl:" + str(r.get("fp"))
+
+
 def run_repl(ctx, binary):
     beh = ctx.tlc_behaviours("ReadReplica.tla", ctx.q("c45_repl_sim_quick.cfg", "c45_repl_sim_thorough.cfg"),
                              num=ctx.q(120, 400), depth=ctx.q(18, 30), procs=4)
@@ -250,49 +257,23 @@ def run_repl(ctx, binary):
     parts, nsh = _bm.chunks(vlib, cases)
     for part in parts:      # bounded engine processes (memory): at most 8 behaviours per process
         ctx.replay_behaviours(binary, part, critical=repl_critical, wrap=lambda c: c, shards=min(nsh, len(part)), timeout=ctx.q(1500, 3000),
-                              fingerprint=lambda c, r: "C45:repl:" + str(r.get("fp")))
+                              fingerprint=repl_fp)
 
-    # the named deviation of DynamicPushOnWriteHook: behaviours of the REPAIRED hook that enter the window in which the
-    # code pushes to the previous destination; a mismatch inside that window is the (known) finding
-    fixed = ctx.tlc_behaviours("ReadReplica.tla", "c45_repl_fixed_sim.cfg", num=ctx.q(200, 600), depth=10, procs=4, seed=ctx.seed + 77)
-    chosen = []
-    for b in fixed:
-        idx = [i for i in range(len(b)) if stale_window(b, i)]
-        if not idx:
-            continue
-        pre = b[:idx[0]]
-        # selection of demonstrations only (expectations stay TLC's): the code differs from the repaired hook when a
-        # previous destination exists (the setting never was '') and the remote is reachable at that step
-        was_none = any(s["a"] == "SetCfg" and s["args"]["v"] == "none" for s in pre)
-        up = True
-        for s in pre:
-            up = False if s["a"] == "RemoteDown" else (True if s["a"] == "RemoteUp" else up)
-        if was_none or not up:
-            continue
-        chosen.append({"steps": b[:idx[0] + 1], "stale_step": idx[0]})
-        if len(chosen) >= 3:
-            break
-    if not chosen:
-        ctx.notes.append("no behaviour of the repaired push hook entered the stale-destination window in this run")
-    res = ctx.run_engine(binary, [], chosen, shards=1) if chosen else []
-    for c, r in zip(chosen, res):
-        if r.get("ok"):
-            ctx.cov["traces_validated_against_impl"] += 1
-            ctx.cov["evaluations"] += int(r.get("evals", 0))
-            continue
-        if r.get("inconclusive") or r.get("crash"):
-            raise vlib.Inconclusive("replication engine: " + str(r.get("inconclusive") or r.get("detail"))[-1500:])
-        r2 = ctx.run_engine(binary, [], [dict(c)], shards=1)[0]
-        if r2.get("ok"):
-            ctx.notes.append("unreproduced mismatch (ignored): " + json.dumps(r)[:400])
-            continue
-        if r2.get("signal") or r2.get("crash") or r2.get("inconclusive"):
-            raise vlib.Inconclusive("replication engine died while re-executing a case: " + str(r2.get("detail") or r2.get("inconclusive"))[-800:])
-        if r2.get("step") == c["stale_step"]:
-            fp = "C45:repl:stale-destination:%s" % r2.get("fp")
-        else:
-            fp = "C45:repl:" + str(r2.get("fp"))
-        ctx.violation(fp, r2.get("detail", ""), {"part": "repl", "case": c, "result": r2, "reproduced": True})
+    # the generator describes the repaired DynamicPushOnWriteHook (5c19ae0): writes after a failed re-configuration must
+    # keep warning.  Vacuity guard: the replayed set must contain such writes with a previous destination and a reachable remote.
+    nwin = 0
+    for b in beh:
+        for i in range(len(b)):
+            if stale_window(b, i):
+                pre = b[:i]
+                up = True
+                for s in pre:
+                    up = False if s["a"] == "RemoteDown" else (True if s["a"] == "RemoteUp" else up)
+                if up and not any(s["a"] == "SetCfg" and s["args"]["v"] == "none" for s in pre):
+                    nwin += 1
+    ctx.cov["repl_writes_after_failed_reconfiguration"] = nwin
+    if nwin == 0:
+        raise vlib.Inconclusive("no replayed behaviour writes twice under an unresolvable dolt_replicate_to_remote (generator vacuity)")
 
 
 # ------------------------------------------------------------------------------------------------ part C: the SQL face of the role
@@ -367,7 +348,7 @@ def run(ctx):
     else:
         tl = [("ClusterHookMC.tla", "c45_hook_exh_thorough.cfg"), ("ClusterHookMC.tla", "c45_hook_fixed_quick.cfg"),
               ("ClusterHook.tla", "c45_hook_live_quick.cfg"), ("ReadReplica.tla", "c45_repl_exh_thorough.cfg"),
-              ("ReadReplica.tla", "c45_repl_fixed_exh.cfg"), ("PushOnWrite.tla", "c45_pow_exh_thorough.cfg"),
+              ("PushOnWrite.tla", "c45_pow_exh_thorough.cfg"),
               ("ClusterRole.tla", "c45_role_exh.cfg")]
     ctx._spec_dir()
     if os.environ.get("VERIF_C45_SKIP_TLC"):          # development aid only
